@@ -258,9 +258,9 @@ func genTrivia(r *Rng, must bool) string {
 		case 1:
 			b.WriteString("\t")
 		case 2:
-			b.WriteString(" /* c; { \" */ ")
+			b.WriteString(pick(r, []string{" /* c; { \" */ ", " /**/", " /*/ x ; */ ", " /*** } ***/", " /* // */ ", " /* * / */", " /*\n multi\n line */"}))
 		case 3:
-			b.WriteString(" // line ; } comment\n")
+			b.WriteString(pick(r, []string{" // line ; } comment\n", " //\n", " /// /* x\n", " // */ \r\n"}))
 		case 4:
 			b.WriteString("\r\n  ")
 		default:
@@ -279,28 +279,30 @@ func genYArg(r *Rng, tier string, n int, emit func(Case)) {
 			src.WriteString("\n" + indentTo(r, r.Intn(12)))
 		}
 		src.WriteString("x:s" + genTrivia(r, true))
-		// split the value into pieces
+		// the value as 1-3 pieces joined by '+'; a later piece may repeat an earlier one verbatim (the decoder
+		// must find *its own* opening quote, not that of an identical piece elsewhere)
 		np := 1
-		if r.Chance(40) {
+		if r.Chance(45) {
 			np = 2 + r.Intn(2)
 		}
-		var pieces []any
-		rest := v
+		var pvs []string
 		for k := 0; k < np; k++ {
-			var pv string
-			if k == np-1 {
-				pv = rest
+			if k > 0 && r.Chance(35) {
+				pvs = append(pvs, pvs[r.Intn(k)])
+			} else if k == 0 {
+				pvs = append(pvs, v)
 			} else {
-				cut := 0
-				if len(rest) > 0 {
-					cut = r.Intn(len(rest) + 1)
-					for cut < len(rest) && (rest[cut]&0xC0) == 0x80 {
-						cut++
-					}
-				}
-				pv, rest = rest[:cut], rest[cut:]
+				pvs = append(pvs, genArgValue(r))
 			}
-			mode := r.Intn(3)
+		}
+		v = strings.Join(pvs, "")
+		var pieces []any
+		for k := 0; k < np; k++ {
+			pv := pvs[k]
+			mode := r.Intn(4)
+			if mode == 3 {
+				mode = 2 // favour double-quoted pieces
+			}
 			if np > 1 && mode == 0 {
 				mode = 1 // only quoted strings may be concatenated
 			}
@@ -330,6 +332,9 @@ func genYArg(r *Rng, tier string, n int, emit func(Case)) {
 			pieces = append(pieces, desc)
 			if k != np-1 {
 				src.WriteString(genTrivia(r, false) + "+" + genTrivia(r, false))
+				if r.Chance(40) {
+					src.WriteString("\n" + indentTo(r, r.Intn(14)))
+				}
 			}
 		}
 		src.WriteString(genTrivia(r, false) + ";" + genTrivia(r, false) + "}")
